@@ -143,7 +143,7 @@ def render(ans, nm):
 def gen_argv(rng):
     f = rng.choice([3.5, 7.15, 14.2, 28.0])
     argv = ['-f', repr(f)]
-    kind = rng.choice(['dipole', 'bent', 'ground', 'taper', 'arc', 'helix', 'fuzz', 'emul-join', 'emul-join'])
+    kind = rng.choice(['dipole', 'bent', 'ground', 'taper', 'arc', 'helix', 'fuzz', 'emul-join', 'emul-join', 'curve-ground', 'curve-ground'])
     L = 299.8 / f / 4
     if kind == 'dipole':
         argv += ['-w', '%d,0,0,%g,0,0,%g,%g' % (rng.randint(3, 9), -L, L, 0.001)]
@@ -174,6 +174,23 @@ def gen_argv(rng):
             eps = L / 30 * 1e-3 * 0.3
             argv += ['-w', '1,3,%r,0,%r,%r,%r,0,.001' % (rx + L / 2, -L / 4, rx, eps),
                      '-H', '2,%d,%g,%g,.001,%g,%g' % (rng.randint(6, 10), L / 3, L / 3, rx, rx)]
+    elif kind == 'curve-ground':
+        # curved objects standing on a ground plane: their grounded ends are computed points (R sin 180 = 1.2e-16 R, a helix
+        # moved down onto the plane) — BASIC grounds an end only when its Z is exactly 0
+        R = L / 2
+        sub = rng.choice(['half-loop', 'half-loop-rev', 'mast+quarter-arc', 'helix-on-plane', 'helix-moved-onto-plane'])
+        if sub == 'half-loop':
+            argv += ['-a', '%d,%r,0,180,.001' % (rng.randint(6, 10), R)]
+        elif sub == 'half-loop-rev':
+            argv += ['-a', '%d,%r,180,0,.001' % (rng.randint(6, 10), R)]
+        elif sub == 'mast+quarter-arc':
+            argv += ['-w', '1,4,0,0,0,0,0,%r,.001' % R, '-a', '2,%d,%r,90,180,.001' % (rng.randint(4, 7), R)]
+        elif sub == 'helix-on-plane':
+            argv += ['-H', '%d,%g,%g,.001,%g,%g' % (rng.randint(8, 12), L / 2, L / 4, L / 8, L / 8)]
+        else:
+            argv += ['-H', '1,%d,%g,%g,.001,%g,%g' % (rng.randint(8, 12), L / 2, L / 4, L / 8, L / 8),
+                     '--geo-translate=1,0,0,%r,1' % rng.choice([1e-12, 3e-9])]
+        argv += ['--medium=0,0,0']
     elif kind == 'arc':
         argv += ['-a', '%d,%g,0,%d,.001' % (rng.randint(4, 8), L / 2, rng.choice([90, 180, 270]))]
     elif kind == 'helix':
